@@ -273,6 +273,56 @@ def _par_deep(tier, seed, props, mode):
     return out
 
 
+def _par_probe_bundles(tier, seed, props, mode="plain"):
+    """probe-directed selection for the scheduled runs: a concrete pre-scan (pseudo-random costs AND a pseudo-random
+    schedule with up to 3-6 pre-emptions, ~0.5 ms per run) looks for (structure, costs, schedule) on which ONE concrete run
+    of the parallel solver already violates an obligation; the scheduled symbolic exploration then STARTS from that run
+    (eseed / schedinit), decides it (the first path's obligations are evaluated under its own model and by the solver)
+    and explores around it.  Nothing is found on a tree where the property holds."""
+    import concurrent.futures as cf
+    import subprocess
+    from . import build as _b
+    try:
+        binp, _ = _b.ensure_symx(sched=True)
+    except _b.BuildError:
+        return []
+    lim = dict(max_paths=300, max_secs=20) if tier == "quick" else dict(max_paths=5000, max_secs=300)
+    count, tries = (400, 15) if tier == "quick" else (3000, 30)
+    cfgs = [
+        dict(n=4, b=3, d=2, threads=2, preempt=3, width=1), dict(n=5, b=2, d=2, threads=2, preempt=4, width=1),
+        dict(n=4, b=3, d=3, threads=2, preempt=3, width=1), dict(n=4, b=2, d=2, threads=2, preempt=5, width=1),
+        dict(n=4, b=3, d=2, threads=3, preempt=4, width=1), dict(n=5, b=3, d=2, threads=2, preempt=3, width=2),
+    ]
+    jobs = []
+    for ci, cfg in enumerate(cfgs):
+        for ca in (0, 1):
+            for dd in (("lel", "pooled") if ci % 2 == 0 else ("frontier",)):
+                a = dict(kind="finddynpar", dd=dd, cache=ca, fringe=("nodup" if (ci + ca) % 3 == 2 else "simple"), mode=mode, props=props, setnext=1, start=seed * 1000 + 1, count=count, take=2, tries=tries, kmax=14, **cfg)
+                if ca:
+                    a["mapyield"] = 1
+                jobs.append(a)
+
+    def one(a):
+        try:
+            out = subprocess.run([binp] + ["%s=%s" % kv for kv in a.items()], stdout=subprocess.PIPE, stderr=subprocess.DEVNULL, text=True, timeout=(120 if tier == "quick" else 900)).stdout.strip().splitlines()
+        except subprocess.TimeoutExpired:
+            return a, []
+        hits = []
+        for tok in (out[-1].split(",") if out else []):
+            if ":" in tok:
+                s_, e_ = tok.split(":")
+                hits.append((int(s_), int(e_)))
+        return a, hits
+
+    out = []
+    with cf.ThreadPoolExecutor(max_workers=16) as ex:
+        for a, hits in ex.map(one, jobs):
+            for (s_, e_) in hits:
+                b = {k: v for k, v in a.items() if k not in ("kind", "start", "count", "take", "tries")}
+                out.append(P(kind="par", seed=s_, eseed=e_, schedinit=e_, rub="none", rev=0, _engine="sched", **b, **lim))
+    return out
+
+
 def _knap_bundles(tier, seed, props):
     """bounded knapsack (each item 0..3 times: non-binary domains, value-ordered states, first layer wider than the width)"""
     limk = dict(max_paths=1500, max_secs=20) if tier == "quick" else dict(max_paths=40000, max_secs=900)
@@ -345,7 +395,7 @@ def plan(prop, tier, seed, find):
         return dict(engine="symx", bundles=_solve_bundles(tier, seed, find, "C02", ["plain", "cutoff"], nseeds=(1 if tier == "quick" else 6)) + _par_bundles(tier, seed, "C02", ["plain", "cutoff"], nseeds=(1 if tier == "quick" else 4), dds=["lel", "pooled"]) + _knap_bundles(tier, seed, "C02"), prefixes=["C02:"], vacuity=dict(interrupted=1, not_interrupted=1), functions=FUNCS_SOLVE, bounds=bound_solve + "; cut-off poll K symbolic in 1..40 (every poll of the run forks)",
                     nontrivial=("decided sub-case with >= 2 explored paths", lambda r: r["paths"] >= 2))
     if prop == "C05":
-        return dict(engine="symx", bundles=_solve_bundles(tier, seed, find, "C05", ["cutoff"]) + _polls_bundles(tier, seed, "C05") + _par_bundles(tier, seed, "C05", ["cutoff"], nseeds=(1 if tier == "quick" else 6)) + _par_deep(tier, seed, "C05", "cutoff"), prefixes=["C05:"], vacuity=dict(interrupted=1, not_interrupted=1, polls_ge8=1), functions=FUNCS_SOLVE, bounds=bound_solve + "; cut-off poll K symbolic in 1..40 (sequential solver; parallel part see C05 in DESIGN.md)",
+        return dict(engine="symx", bundles=_solve_bundles(tier, seed, find, "C05", ["cutoff"]) + _polls_bundles(tier, seed, "C05") + _par_bundles(tier, seed, "C05", ["cutoff"], nseeds=(1 if tier == "quick" else 6)) + _par_deep(tier, seed, "C05", "cutoff") + _par_probe_bundles(tier, seed, "C05", mode="cutoff"), prefixes=["C05:"], vacuity=dict(interrupted=1, not_interrupted=1, polls_ge8=1), functions=FUNCS_SOLVE, bounds=bound_solve + "; cut-off poll K symbolic in 1..40 (sequential solver; parallel part see C05 in DESIGN.md)",
                     nontrivial=("decided sub-case in which the cut-off interrupted the run on some path", lambda r: r["notes"].get("interrupted", 0) > 0))
     if prop == "C19":
         return dict(engine="symx", bundles=_solve_bundles(tier, seed, find, "C19", ["cutoff2"]) + _polls_bundles(tier, seed, "C19"), prefixes=["C19:"], vacuity=dict(interrupted=1, boundary=1, polls_ge8=1), functions=FUNCS_SOLVE, bounds=bound_solve + "; two solver runs with cut-off at poll K and K+1 inside one symbolic execution, K symbolic in 1..40; plus, on n=4 models, one uninterrupted run whose wrappers record the upper bound at every poll (covers all K at once; counterexamples are replayed with real cut-off runs)",
@@ -387,7 +437,7 @@ def plan(prop, tier, seed, find):
         limd = dict(max_paths=4000, max_secs=40) if tier == "quick" else dict(max_paths=60000, max_secs=1200)
         for k in range(14 if tier == "quick" else 48):
             deep.append(P(kind="par", dd=("lel" if k % 3 else "frontier"), cache=str(k % 2 if k % 4 == 3 else 0), fringe="simple", width="1", threads=2, preempt=2, mode="plain", seed=seed * 1000 + 600 + k, rub="none", rev=k % 2, props="C03", n=3, b=2, d=2, setnext=1, nsym=4, _engine="sched", **limd))
-        return dict(engine="sched", bundles=_par_bundles(tier, seed, "C03", ["plain"]) + deep, prefixes=["C03:", "C04:", "nontermination"], vacuity=dict(context_switch=1, preemption=1, condvar_wait=1, explored_ge2=1), functions=FUNCS_PAR, bounds=bound_par,
+        return dict(engine="sched", bundles=_par_bundles(tier, seed, "C03", ["plain"]) + deep + _par_probe_bundles(tier, seed, "C03"), prefixes=["C03:", "C04:", "nontermination"], vacuity=dict(context_switch=1, preemption=1, condvar_wait=1, explored_ge2=1), functions=FUNCS_PAR, bounds=bound_par,
                     nontrivial=("decided sub-case with at least one pre-emptive context switch on some path", lambda r: r["notes"].get("preemption", 0) > 0))
     if prop == "C04":
         variants = [dict(threads=c, threads_after=t, preempt=p, cache=ca, fringe="simple") for (c, t, p, ca) in [(1, 2, 1, 0), (2, 1, 1, 0), (2, 3, 1, 0), (1, 3, 1, 1), (2, 2, 2, 0), (3, 2, 1, 1), (1, 1, 0, 0)]]
@@ -398,7 +448,7 @@ def plan(prop, tier, seed, find):
         stale = find([], famd, 8 if tier == "quick" else 32, seed * 1000 + 1, dyn=dict(_solve=True, notes="cache_skip_at_pop", dd="lel", width=1, tries=24))
         for k, sd in enumerate(stale + [seed * 1000 + 650 + j for j in range(4 if tier == "quick" else 16)]):
             deep.append(P(kind="par", dd="lel,frontier", cache=1, fringe=("nodup" if k % 4 == 3 else "simple"), width="1,2", threads=(2 if k % 3 == 2 else 1), preempt=(1 if k % 3 == 2 else 0), mode="plain", seed=sd, rub="none", rev=0, props="C04", _engine="sched", **famd, **limd))
-        return dict(engine="sched", bundles=_par_bundles(tier, seed, "C04", ["plain", "cutoff"], variants=variants, nseeds=(1 if tier == "quick" else 5)) + deep, prefixes=["C04:", "nontermination"], vacuity=dict(context_switch=1, condvar_wait=1, interrupted=1), functions=FUNCS_PAR,
+        return dict(engine="sched", bundles=_par_bundles(tier, seed, "C04", ["plain", "cutoff"], variants=variants, nseeds=(1 if tier == "quick" else 5)) + deep + _par_probe_bundles(tier, seed, "C04") + _par_probe_bundles(tier, seed, "C04", mode="cutoff"), prefixes=["C04:", "nontermination"], vacuity=dict(context_switch=1, condvar_wait=1, interrupted=1), functions=FUNCS_PAR,
                     bounds=bound_par + "; thread count at construction 1..3 and after with_nb_threads 1..3 (including counts larger and smaller than at construction); cut-off poll K symbolic in 1..16",
                     nontrivial=("decided sub-case with at least one condvar wait on some path", lambda r: r["notes"].get("condvar_wait", 0) > 0))
     if prop == "C15":
